@@ -82,7 +82,8 @@ void Body(Tape& t, Outcome& o) {
   for (int i = 0; i < nOps; ++i) {
     d << (i ? " ; " : "") << char('A' + i) << "=";
     Manifold p = gen::GenPrimitive(t, d);
-    Manifold m = gen::GenPose(t, p, i, d, 0.6);
+    // plane cuts also on bodies far from the origin (origin between plane and body)
+    Manifold m = gen::GenPose(t, p, i, d, mode == 4 && t.flip() ? 6.0 : 0.6);
     if (m.Status() != Manifold::Error::NoError) { o.fail("general:operand-status", "generated operand has error status"); return; }
     ms.push_back(m);
     ss.push_back(oracle::MakeSoup(m));
@@ -174,6 +175,7 @@ void Body(Tape& t, Outcome& o) {
     double len = la::length(n);
     V3 cen = (ss[0].lo + ss[0].hi) * 0.5;
     double dOff = (n.x * cen.x + n.y * cen.y + n.z * cen.z) / len + t.real(-0.3, 0.3);
+    if (t.chance(64)) dOff = t.real(-8, 8);  // anywhere, including planes that miss the body on either side
     d << " plane n=(" << gen::num(n.x) << "," << gen::num(n.y) << "," << gen::num(n.z) << ") off=" << gen::num(dOff);
     auto pr = A.SplitByPlane(n, dOff);
     Manifold trim = A.TrimByPlane(n, dOff);
